@@ -7,7 +7,7 @@
    once (C18_iter: strictly increasing enumeration of exactly the members). *)
 From Coq Require Import List ZArith Bool Arith Sorted Lia.
 From PV Require Import Model.Term Model.Subst Model.Unify Model.FD Model.State Model.Engine Proofs.FDProofs Proofs.FDPropProofs
-  Proofs.UnifyProofs Proofs.DiseqProofs Proofs.MonoProofs Proofs.DenProofs Proofs.FDDen Proofs.FDComp Proofs.Acyc Proofs.FDEq Spec.StreamSem Proofs.EngineProofs Proofs.FDProg Proofs.Complete0 Proofs.ForceC.
+  Proofs.UnifyProofs Proofs.DiseqProofs Proofs.MonoProofs Proofs.DenProofs Proofs.FDDen Proofs.FDComp Proofs.Acyc Proofs.FDEq Spec.StreamSem Proofs.EngineProofs Proofs.FDProg Proofs.Complete0 Proofs.ForceC Proofs.StreamProofs Proofs.Unique.
 Import ListNotations.
 Local Open Scope Z_scope.
 
@@ -107,6 +107,15 @@ Theorem C17_program_then_labeling : forall defs th g q st, Den0 th g -> flat g -
   exists a n, MstG th a /\ emitsE (startq defs) n (startq defs (from_array BFS [g; CForceAns q]) st) a.
 Proof. exact flat_then_label. Qed.
 
+(* "exactly once", first half: a program without disjunction (==, !=, domains, constraints, conjunction,
+   fresh) has at most ONE answer state before labeling - any two answers Solver::next delivers from it are
+   the same state - so all its solutions are carried by that one state and none is returned twice by
+   propagation; the labeling then enumerates each domain value once (C17_label_values) *)
+Theorem C17_one_answer_before_labeling : forall defs g, det g -> forall f n1 n2 st ys1 ys2 s1 s2 a b,
+  runs (start defs (S f)) n1 (start defs (S f) g st) ys1 s1 -> runs (start defs (S f)) n2 (start defs (S f) g st) ys2 s2 ->
+  In a ys1 -> In b ys2 -> a = b.
+Proof. exact det_one_answer. Qed.
+
 (* readings of the two outcomes *)
 Theorem C17_success_keeps : forall c st st' th, WFD st -> post_constraint c st = SOk st' ->
   MstG th st -> choldG th c -> MstG th st'.
@@ -164,3 +173,4 @@ Print Assumptions C17_eq_complete.
 Print Assumptions C17_no_solution_lost_flat.
 Print Assumptions C17_labeling_complete.
 Print Assumptions C17_program_then_labeling.
+Print Assumptions C17_one_answer_before_labeling.
